@@ -173,6 +173,16 @@ class C19:
         ip = s.add("parse_buf", 1, hx(text))
         secs = [(1, m.root, 0)]
         nh = [10]
+        paths = {1: []}       # handle -> [(name, qualified step)] from the root
+
+        def qualify(o, idx, inst):
+            f = o.d["f"]
+            if not (f & F_MULTI):
+                return o.d["n"]
+            if f & F_TITLE:
+                t = inst.title or ""
+                return o.d["n"] + "='" + t.replace("\\", "\\\\").replace("'", "\\'") + "'"
+            return "%s=%d" % (o.d["n"], idx)
 
         def walk(msec, handle, depth):
             for o in msec.opts:
@@ -182,6 +192,8 @@ class C19:
                         nh[0] += 1
                         s.add("getnsec", handle, hx(o.d["n"]), idx, h)
                         secs.append((h, inst, depth + 1))
+                        dup = (o.d["f"] & F_TITLE) and [x.title for x in o.vals].count(inst.title) > 1
+                        paths[h] = None if (paths.get(handle) is None or dup) else paths[handle] + [(o.d["n"], qualify(o, idx, inst))]
                         walk(inst, h, depth + 1)
         walk(m.root, 1, 0)
         # choose filters and print callbacks from the case's fractions
@@ -214,10 +226,21 @@ class C19:
             o = msec.opts[int(opos * len(msec.opts)) % len(msec.opts)]
             if o.kind == "sec" or id(o) in pfs:
                 continue
-            oh = nh[0]
-            nh[0] += 1
-            s.add("getopt", h, hx(o.d["n"]), oh)
-            s.add("oprintfunc", oh, 1)
+            mode = len(pfs) % 3
+            if mode == 0 or "|" in o.d["n"] or "=" in o.d["n"]:
+                oh = nh[0]
+                nh[0] += 1
+                s.add("getopt", h, hx(o.d["n"]), oh)
+                s.add("oprintfunc", oh, 1)            # cfg_opt_set_print_func on the option itself
+            elif mode == 1 or h == 1:
+                s.add("printfunc", h, hx(o.d["n"]), 1)   # cfg_set_print_func(section, name)
+            else:
+                # cfg_set_print_func(root, path): the path of this very instance (index / quoted title qualifiers)
+                chain = paths.get(h)
+                if chain is None or any(("|" in st or "=" in st) for st, _ in chain):
+                    s.add("printfunc", h, hx(o.d["n"]), 1)
+                else:
+                    s.add("printfunc", 1, hx("|".join(q for _, q in chain) + "|" + o.d["n"]), 1)
             pfs[id(o)] = True
         P = Printer(filters, pfs)
         checks = []
